@@ -102,6 +102,9 @@ func c08FillMempool(w *enga.World, class string) [][]byte {
 	return txs
 }
 
+// c08Config names the genesis configuration c08Honest is running on when it is not the default one.
+var c08Config string
+
 // c08Honest: the real PrepareProposal output is accepted by a second replica, has at most
 // 16 transactions, and its execution-block message succeeds when finalised.
 func c08Honest(r *mc.Run, w *enga.World, path []enga.ABlock) {
@@ -111,7 +114,13 @@ func c08Honest(r *mc.Run, w *enga.World, path []enga.ABlock) {
 		b, err := w.Fork()
 		must(err)
 		viol := func(cls, msg string) {
-			r.Violate(mc.Violation{Class: cls, Msg: fmt.Sprintf("%s | mempool %s | history %v", msg, class, aPath(path)), Detail: engaDetail{Path: path, Note: "mempool " + class}}, nil)
+			var det any = engaDetail{Path: path, Note: "mempool " + class}
+			if c08Config != "" {
+				// another genesis configuration: the tree's re-check (which replays the path on the default one) does not apply
+				cls += ":" + c08Config
+				det = map[string]any{"configuration": c08Config, "path": path, "note": "mempool " + class}
+			}
+			r.Violate(mc.Violation{Class: cls, Msg: fmt.Sprintf("%s | mempool %s | history %v %s", msg, class, aPath(path), c08Config), Detail: det}, nil)
 		}
 		pool := c08FillMempool(a, class)
 		blk := &sim.Block{TimeDelta: time.Second, MempoolTxs: pool}
@@ -508,6 +517,97 @@ func c08Converse(r *mc.Run, w *enga.World, path []enga.ABlock) {
 	}
 }
 
+// c08NonCanonical: payloads of an honest proposal whose fixed-size fields are written with an extra
+// leading byte (the engine is shown, and answers for, the last 32 bytes). Whether such a proposal is
+// refused or accepted is not what is judged here: if it is accepted, finalised and committed, the
+// state it leaves is a committed state like any other, and the next honest proposal on it must be
+// accepted and applied.
+var c08Encodings = []struct {
+	name string
+	f    func(p *goatmodtypes.ExecutionPayload)
+}{
+	{"block-hash-33-bytes-leading-00", func(p *goatmodtypes.ExecutionPayload) { p.BlockHash = append([]byte{0}, p.BlockHash...) }},
+	{"block-hash-33-bytes-leading-01", func(p *goatmodtypes.ExecutionPayload) { p.BlockHash = append([]byte{1}, p.BlockHash...) }},
+	{"state-root-33-bytes", func(p *goatmodtypes.ExecutionPayload) { p.StateRoot = append([]byte{0}, p.StateRoot...) }},
+	{"receipts-root-33-bytes", func(p *goatmodtypes.ExecutionPayload) { p.ReceiptsRoot = append([]byte{0}, p.ReceiptsRoot...) }},
+	{"prev-randao-33-bytes", func(p *goatmodtypes.ExecutionPayload) { p.PrevRandao = append([]byte{0}, p.PrevRandao...) }},
+	{"extra-data-longer", func(p *goatmodtypes.ExecutionPayload) { p.ExtraData = append(p.ExtraData, 0) }},
+}
+
+func c08NonCanonical(r *mc.Run, w *enga.World, path []enga.ABlock) {
+	for _, enc := range c08Encodings {
+		x, err := w.Fork()
+		must(err)
+		func() {
+			defer x.Close()
+			tx, _, err := x.N.BuildEthBlockTx(sim.EthBlockOpts{MutatePayload: enc.f})
+			must(err)
+			blk := &sim.Block{TimeDelta: time.Second}
+			pr, perr := x.N.Process(blk, [][]byte{tx})
+			r.Transitions.Add(1)
+			r.Validated.Add(1)
+			if perr != nil || pr.Status != abci.ResponseProcessProposal_ACCEPT {
+				r.Outcome("non-canonical-encoding-refused:" + enc.name)
+				x.N.LoggedErrors()
+				return
+			}
+			fr, ferr := x.N.Finalize(blk, [][]byte{tx})
+			if ferr != nil {
+				r.Outcome("non-canonical-encoding-aborts-block:" + enc.name)
+				return
+			}
+			must(x.N.Commit(blk, [][]byte{tx}, fr))
+			r.Outcome(fmt.Sprintf("non-canonical-encoding-accepted:%s:code-%d", enc.name, fr.TxResults[0].Code))
+			for i := 0; i < 2; i++ {
+				rr := x.Run(enga.ABlock{})
+				r.Transitions.Add(1)
+				r.Validated.Add(1)
+				if rr.Err != nil || !rr.EthOK {
+					msg := "execution-block message fails"
+					if rr.Err != nil {
+						msg = rr.Stage + ": " + clip(rr.Err.Error(), 500)
+					}
+					r.Violate(mc.Violation{Class: "honest-proposal-fails-on-the-state-left-by-an-accepted-proposal:" + enc.name,
+						Msg:    fmt.Sprintf("%s | honest block %d after the accepted proposal (%s) | history %v", msg, i+1, enc.name, aPath(path)),
+						Detail: engaDetail{Path: path, Note: "accepted non-canonical proposal " + enc.name}}, nil)
+					return
+				}
+			}
+		}()
+	}
+}
+
+// c08SharedAccount: a configuration the chain admits - the node's validator key is also the key of
+// the current relayer proposer (one operator, one key). The block transaction then takes the very
+// sequence number the account's pending relayer transactions were signed with. The honest proposal
+// must still be accepted by the second replica and its block message applied, for every mempool class,
+// at the root and after every request-only block of the menu.
+func c08SharedAccount(r *mc.Run) {
+	g := c08Cfg()
+	g.Proposer = sim.Member{Key: g.Vals[g.NodeVal].Key, BLS: sim.NewBLSKey("relayer-0")}
+	root, err := enga.NewWorld(g)
+	must(err)
+	defer root.Close()
+	c08Config = "validator-account-is-the-relayer-proposer"
+	defer func() { c08Config = "" }()
+	var note []enga.ABlock
+	c08Honest(r, root, note)
+	for _, b := range []enga.ABlock{{}, {Events: []enga.Event{{Kind: "req:withdraw", N: 2}, {Kind: "req:claim", N: 2}}}, {Events: []enga.Event{{Kind: "req:unlock", N: 2}}, Dt: 1}, {Dt: 7}, {Absent: []int{1}}} {
+		child, err := root.Fork()
+		must(err)
+		rr := child.Run(b)
+		r.Transitions.Add(1)
+		r.Validated.Add(1)
+		if rr.Err != nil {
+			r.Violate(mc.Violation{Class: "honest-block-fails:" + rr.Stage + ":shared-account", Msg: fmt.Sprintf("%v | validator account = relayer proposer | block %v", rr.Err, b), Detail: map[string]any{"configuration": c08Config, "path": []enga.ABlock{b}}}, nil)
+		} else {
+			c08Honest(r, child, append(append([]enga.ABlock{}, note...), b))
+		}
+		child.Close()
+	}
+	r.Outcome("shared-account-configuration-explored")
+}
+
 func runC08(r *mc.Run) {
 	depth := 3
 	if r.Thorough() {
@@ -517,7 +617,7 @@ func runC08(r *mc.Run) {
 		r.SetBudget(170 * 1e9)
 	}
 	r.Bounds["depth_blocks"] = depth
-	r.Rule = "at every state of a tree search over block histories (2 validators, relayer proposer + 1 voter; menu with queue-filling events, unlock maturity, elections): (honest) for 8 mempool classes the real PrepareProposal output must be ACCEPTed by a second replica, carry <= 16 txs and its execution-block message must succeed in FinalizeBlock; (converse) 37 single mutations of a well-formed proposal must be rejected by ProcessProposal and must not move the head when finalised anyway; (schedules, races) see schedule_* keys"
+	r.Rule = "at every state of a tree search over block histories (2 validators, relayer proposer + 1 voter; menu with queue-filling events, unlock maturity, elections): (honest) for 8 mempool classes the real PrepareProposal output must be ACCEPTed by a second replica, carry <= 16 txs and its execution-block message must succeed in FinalizeBlock; (converse) 37 single mutations of a well-formed proposal must be rejected by ProcessProposal and must not move the head when finalised anyway; (sizes) execution blocks of 0.5 MiB - 6 MB and bursts of 400 / 1000 requests of one kind; (encodings) proposals with an extra leading byte in a fixed-size field: if accepted and committed, the next honest proposals must still be accepted and applied; (shared account) the same honest-proposal checks on a chain whose validator key is also the relayer proposer's key; (schedules, races) see schedule_* keys"
 	r.Assumptions = []string{"validators' clocks are not behind the proposer's", "ELSim canonical mode defines the well-behaved execution layer"}
 	var explore func(r *mc.Run, only []enga.ABlock)
 	explore = func(r *mc.Run, only []enga.ABlock) {
@@ -541,6 +641,7 @@ func runC08(r *mc.Run) {
 		c08Honest(r, root, nil)
 		c08LargeBlocks(r, root, nil)
 		c08ManyRequests(r, root, nil)
+		c08NonCanonical(r, root, nil)
 		c08Converse(r, root, nil)
 		t := &enga.Tree{Run: r, Depth: depth,
 			Menu: func(w *enga.World, path []enga.ABlock) []enga.ABlock { return menu },
@@ -562,6 +663,7 @@ func runC08(r *mc.Run) {
 				if len(path) <= 1 {
 					c08LargeBlocks(r, child, path)
 					c08ManyRequests(r, child, path)
+					c08NonCanonical(r, child, path)
 				}
 				return true
 			},
@@ -572,6 +674,7 @@ func runC08(r *mc.Run) {
 	}
 	treeRecheck(r, explore)
 	explore(r, nil)
+	c08SharedAccount(r)
 	c08RacePass(r)
 	c08Schedules(r)
 }
